@@ -23,8 +23,11 @@ for content flips, undone again, all bytes changed with sizes kept, removed and 
 same path, and the same relative path under another working directory — and after every step
 the result must be what that content demands (hashlib / model / previous step).
 
-Out of the model (generator precondition, see `chain_free`): link texts that end at or pass
-through another symlink — `Path.resolve` follows those and the code records the final target.
+Symlink chains (links to links, link texts through symlinked directories, loops, chains that
+leave the directory through a link lying outside and come back) are compared with the realpath
+model coq/Util/DirHashChain.v (entry c19c); the oracle judges them on their FINAL trees
+(`final_of_spec`, whose result is itself compared with the model's skeleton).  Trees produced by
+`gen_tree`/`gen_edits` stay chain-free and are compared with the lexical model.
 """
 from __future__ import annotations
 
@@ -49,7 +52,7 @@ MODEL_MAX = 70000                               # larger contents: code vs hashl
 TL = 60                                         # per-call time limit (s), CPU is contended
 OUT_KINDS = ["file", "dir", "file-in-dir", "dangling", "sibling-prefix", "sibling-file",
              "parent", "root", "abs-file", "abs-dir", "far-up"]
-OUT_CLASS = {"file": "file", "file-in-dir": "file", "sibling-file": "file", "abs-file": "file",
+OUT_CLASS = {"chain": "chain-end", "loop": "loop", "file": "file", "file-in-dir": "file", "sibling-file": "file", "abs-file": "file",
              "dir": "dir", "sibling-prefix": "dir", "parent": "dir", "root": "dir", "abs-dir": "dir",
              "far-up": "dir", "dangling": "dangling"}
 BASENAMES = ["base", "b", "data dir", "x.y", "Base-2"]
@@ -258,18 +261,32 @@ def restrict_spec(spec, keep: set):
 
 # ------------------------------------------------------------------ implementation side
 
+def fixtures_of(spec) -> Dict[Tuple[str, ...], str]:
+    """Files and directories next to the base (made when some link text refers to them)."""
+    name = spec["name"]
+    texts = [e[2] for e in spec["entries"] if e[1] == "l"] + [t for _, t in spec.get("outside_links", [])]
+    fx: Dict[Tuple[str, ...], str] = {("out.txt",): "f"}
+    if any("outd" in t for t in texts):
+        fx[("outd",)] = "d"
+        fx[("outd", "inner.txt")] = "f"
+    if any(name + "x" in t for t in texts):
+        fx[(name + "x",)] = "d"
+        fx[(name + "x", "f.txt")] = "f"
+    return fx
+
+
 def materialise(spec, W: Path) -> Path:
     name = spec["name"]
     base = W / name
     base.mkdir()
-    texts = [e[2] for e in spec["entries"] if e[1] == "l"]
-    (W / "out.txt").write_bytes(b"outside")
-    if any("outd" in t for t in texts):          # fixtures outside the base, made when referred to
-        (W / "outd").mkdir(exist_ok=True)
-        (W / "outd" / "inner.txt").write_bytes(b"outside")
-    if any(name + "x" in t for t in texts):
-        (W / (name + "x")).mkdir(exist_ok=True)
-        (W / (name + "x") / "f.txt").write_bytes(b"outside")
+    for fpath, fkind in fixtures_of(spec).items():
+        if fkind == "d":
+            W.joinpath(*fpath).mkdir(exist_ok=True)
+        else:
+            W.joinpath(*fpath).write_bytes(b"outside")
+    for oname, otext in spec.get("outside_links", []):      # symlinks lying next to the base
+        if not os.path.lexists(W / oname):
+            os.symlink(otext.replace("@W@", str(W)), W / oname)
     made = []
     for path, kind, payload in spec["entries"]:
         p = base.joinpath(*path)
@@ -305,6 +322,9 @@ def impl_tree(spec) -> Tuple[str, Any, str]:
             return ("timeout", None, str(W))
         except ValueError as e:
             st = "outside" if "points to the outside" in str(e) else "exc:ValueError"
+            return (st, str(e)[:200], str(W))
+        except RuntimeError as e:
+            st = "loop" if "Symlink loop" in str(e) else "exc:RuntimeError"
             return (st, str(e)[:200], str(W))
         except Exception as e:  # noqa: BLE001
             return ("exc:" + type(e).__name__, str(e)[:200], str(W))
@@ -386,6 +406,8 @@ def impl_inplace(job):
                 r = ("timeout", None)
             except ValueError as e:
                 r = ("outside" if "points to the outside" in str(e) else "exc:ValueError", str(e)[:200])
+            except RuntimeError as e:
+                r = ("loop" if "Symlink loop" in str(e) else "exc:RuntimeError", str(e)[:200])
             except Exception as e:  # noqa: BLE001
                 r = ("exc:" + type(e).__name__, str(e)[:200])
             finally:
@@ -495,6 +517,300 @@ def shrink_job(job, k, kind):
         return all(chain_free(tree_unjson(st["tree"])) for st in j["steps"]) and still(j)
     keep = vlib.ddmin(paths, fails, budget=60) if len(paths) > 1 and fails(paths) else paths
     return build(keep)
+
+
+# ------------------------------------------------------------------ symlink chains
+# A chain world is a materialisation spec whose link texts may name other links, pass through
+# symlinked directories, loop, or leave the directory through ../<outside link> and come back.
+# What a link finally leads to is computed by `final_of_spec` (the walk of posixpath.realpath on
+# the spec, "@W@" standing for the work directory); the Coq model's skeleton is compared with it.
+
+FUEL = 400
+
+
+def _node_at(spec, path):
+    """What lies at the absolute symbolic path: ("l", text) | ("f",) | ("d",) | None."""
+    name = spec["name"]
+    if path in ([], ["@W@"], ["@W@", name]):
+        return ("d",)
+    if path[0] != "@W@":
+        return None
+    if path[1] == name:
+        return spec["_nodes"].get(tuple(path[2:]))
+    if len(path) == 2 and path[1] in spec["_out"]:
+        return ("l", spec["_out"][path[1]])
+    k = spec["_fx"].get(tuple(path[1:]))
+    return (k,) if k else None
+
+
+def _is_abs(text):
+    return text.startswith("/") or text.startswith("@W@")
+
+
+def _py_resolve(spec, cur, segs, stk, budget):
+    """posixpath._joinrealpath, non-strict: ("ok", path) | ("loop", unresolved path)."""
+    for i, s in enumerate(segs):
+        budget[0] -= 1
+        if budget[0] < 0:
+            raise RecursionError("resolver budget")
+        if s in ("", "."):
+            continue
+        if s == "..":
+            cur = cur[:-1]
+            continue
+        np_ = cur + [s]
+        n = _node_at(spec, np_)
+        if n is None or n[0] != "l":
+            cur = np_
+            continue
+        rest = list(segs[i + 1:])
+        if tuple(np_) in stk:
+            return ("loop", np_ + rest)
+        r = _py_resolve(spec, [] if _is_abs(n[1]) else cur, n[1].split("/"), stk | {tuple(np_)}, budget)
+        if r[0] == "loop":
+            return ("loop", r[1] + rest)
+        cur = r[1]
+    return ("ok", cur)
+
+
+def _py_kwalk(spec, cur, segs, stk, budget):
+    """The kernel's walk for stat(): "ok" path | "loop" (ELOOP) | "stop" (ENOENT/ENOTDIR)."""
+    for i, s in enumerate(segs):
+        budget[0] -= 1
+        if budget[0] < 0:
+            raise RecursionError("resolver budget")
+        if s in ("", "."):
+            continue
+        if s == "..":
+            cur = cur[:-1]
+            continue
+        np_ = cur + [s]
+        n = _node_at(spec, np_)
+        if n is None:
+            return ("stop", None)
+        if n[0] == "f":
+            return ("ok", np_) if i == len(segs) - 1 else ("stop", None)
+        if n[0] == "d":
+            cur = np_
+            continue
+        if tuple(np_) in stk:
+            return ("loop", None)
+        r = _py_kwalk(spec, [] if _is_abs(n[1]) else cur, n[1].split("/"), stk | {tuple(np_)}, budget)
+        if r[0] != "ok":
+            return r
+        cur = r[1]
+    return ("ok", cur)
+
+
+def _py_path_resolve(spec, start, text):
+    """Path.resolve(): absolute symbolic path, or None for RuntimeError (symlink loop)."""
+    budget = [20000]
+    r = _py_resolve(spec, [] if _is_abs(text) else start, text.split("/"), frozenset(), budget)
+    if r[0] == "ok":
+        return r[1]
+    p: List[str] = []
+    for seg in r[1]:                         # abspath(): lexical
+        if seg in ("", "."):
+            continue
+        if seg == "..":
+            p = p[:-1]
+        else:
+            p.append(seg)
+    return None if _py_kwalk(spec, [], p, frozenset(), budget)[0] == "loop" else p
+
+
+def final_of_spec(spec):
+    """-> (abstract tree with every link replaced by its final target, has_loop)."""
+    spec["_nodes"] = {tuple(e[0]): ((e[1], e[2]) if e[1] == "l" else (e[1],)) for e in spec["entries"]}
+    spec["_out"] = dict(spec.get("outside_links", []))
+    spec["_fx"] = fixtures_of(spec)
+    root: Dict[str, Any] = {}
+    loop = False
+    home = ["@W@", spec["name"]]
+    for path, kind, payload in sorted(spec["entries"], key=lambda e: len(e[0])):
+        d = root
+        for seg in path[:-1]:
+            d = d.setdefault(seg, D())[1]
+        if kind == "f":
+            d[path[-1]] = F(payload.encode("latin-1"))
+        elif kind == "d":
+            d.setdefault(path[-1], D())
+        else:
+            r = _py_path_resolve(spec, home + list(path[:-1]), payload)
+            if r is None:
+                loop = True
+                d[path[-1]] = LOUT("loop")
+            elif r[:2] == home:
+                d[path[-1]] = LIN(r[2:])
+            else:
+                d[path[-1]] = LOUT("chain")
+    for k in ("_nodes", "_out", "_fx"):
+        del spec[k]
+    return D(root), loop
+
+
+def model_case_c(spec, W: str) -> Any:
+    """[ctree n alg fuel base world]: the world is rooted at "/", W's own path as nested dirs."""
+    inner = model_case(spec, W)[4]
+    wsegs = W.strip("/").split("/")
+    level = ["d", [spec["name"], inner]]
+    for oname, otext in spec.get("outside_links", []):
+        t = otext.replace("@W@", W)
+        level.append([oname, ["l", t.startswith("/"), t.split("/")]])
+    fx = fixtures_of(spec)
+    for fpath, fkind in fx.items():
+        if len(fpath) == 1:
+            level.append([fpath[0], ["f", "outside"] if fkind == "f" else
+                          ["d"] + [[q[1], ["f", "outside"]] for q in fx if len(q) == 2 and q[0] == fpath[0]]])
+    for seg in reversed(wsegs):
+        level = ["d", [seg, level]]
+    return ["ctree", BLOCK[spec["alg"]], spec["alg"], FUEL, wsegs + [spec["name"]], level]
+
+
+def _names_in(ents, loc):
+    return {p[-1]: 1 for p in ents if p[:-1] == loc}
+
+
+def _rel(loc, target):
+    t = "../" * len(loc) + "/".join(target)
+    return t.rstrip("/") if t.rstrip("/") else "."
+
+
+def gen_chain_world(rng, T):
+    """Concrete world {ents: path -> (kind, payload), out: {name: text}} from a chain-free tree,
+    with chain features added.  '@NAME@' stands for the base name."""
+    spec0 = concretise(rng, T, "@NAME@", "sha256")
+    ents = {tuple(e[0]): (e[1], e[2]) for e in spec0["entries"]}
+    out: Dict[str, str] = {}
+    feats = []
+
+    def dirs():
+        return [()] + [p for p, v in ents.items() if v[0] == "d"]
+
+    def add_link(loc, text):
+        nm = fresh_name(rng, _names_in(ents, loc))
+        ents[loc + (nm,)] = ("l", text)
+        return loc + (nm,)
+    for _ in range(rng.choice([1, 2, 2, 3])):
+        links = [p for p, v in ents.items() if v[0] == "l"]
+        files = [p for p, v in ents.items() if v[0] == "f"]
+        subdirs = [p for p, v in ents.items() if v[0] == "d"]
+        loc = rng.choice(dirs())
+        kind = rng.choice(["chain", "chain", "chain", "through", "through", "through", "up", "up",
+                           "reenter", "reenter", "abs-chain", "chain-out", "loop"])
+        if kind == "chain" and links:
+            q = rng.choice(links)
+            for _ in range(rng.choice([1, 1, 2])):            # chains of 2-3 links
+                at = rng.choice(dirs())
+                q = add_link(at, _rel(at, q))
+        elif kind == "through" and subdirs:
+            d = rng.choice(subdirs)
+            ld = add_link(rng.choice(dirs()), "")
+            ents[ld] = ("l", _rel(ld[:-1], d))
+            kids = [p[-1] for p in ents if p[:-1] == d] or ["nx-kid"]
+            tail = rng.choice([rng.choice(kids), "..", "../" + rng.choice(list(_names_in(ents, d[:-1])) or ["nx"]),
+                               "nx-q", rng.choice(kids) + "/..", "./" + rng.choice(kids)])
+            add_link(loc, _rel(loc, ld) + "/" + tail)
+        elif kind == "up" and subdirs:
+            d = rng.choice(subdirs)
+            up = add_link(d, "..")                              # d/up -> the directory holding d
+            tgt = rng.choice(files + subdirs)
+            tail = "../" * (len(d) - 1) + "/".join(tgt)         # from there up to the base, down to tgt
+            again = ("/" + d[-1] + "/" + up[-1]) * rng.choice([0, 0, 1, 2])
+            add_link(loc, _rel(loc, up) + again + "/" + tail)
+        elif kind == "reenter":
+            d = rng.choice(dirs())
+            out["back"] = "/".join(("@NAME@",) + d)
+            kids = [p[-1] for p in ents if p[:-1] == d] or ["nx-kid"]
+            add_link(loc, "../" * (len(loc) + 1) + "back" + rng.choice(["", "/" + rng.choice(kids), "/nx-r"]))
+        elif kind == "abs-chain" and links:
+            add_link(loc, "/".join(("@W@", "@NAME@") + rng.choice(links)))
+        elif kind == "chain-out":
+            out["olink"] = rng.choice(["outd", "@W@/outd", "..", "out.txt"])
+            add_link(loc, "../" * (len(loc) + 1) + "olink" + rng.choice(["", "/inner.txt", "/../@NAME@/../outd"]))
+        elif kind == "loop":
+            how = rng.choice(["self", "mutual", "parent"])
+            if how == "self":
+                p1 = add_link(loc, "")
+                ents[p1] = ("l", p1[-1])
+            elif how == "mutual":
+                p1 = add_link(loc, "")
+                p2 = add_link(loc, p1[-1])
+                ents[p1] = ("l", "./" + p2[-1])
+            else:
+                p1 = add_link(loc, "")
+                p2 = add_link(loc, p1[-1] + "/..")
+                ents[p1] = ("l", p2[-1] + "/z")
+        else:
+            continue
+        feats.append(kind)
+    return {"ents": ents, "out": out}, feats
+
+
+def chain_edits(rng, cw):
+    """Single edits of a chain world (label, world)."""
+    res = []
+    ents = cw["ents"]
+    files = [p for p, v in ents.items() if v[0] == "f"]
+    links = [p for p, v in ents.items() if v[0] == "l"]
+
+    def variant(fn):
+        c = {"ents": dict(ents), "out": dict(cw["out"])}
+        fn(c["ents"])
+        if c["ents"] != ents:
+            return c
+    if files:
+        p = rng.choice(files)
+        b = bytearray(ents[p][1].encode("latin-1")) or bytearray(b"a")
+        b[rng.randrange(len(b))] ^= 1
+        res.append(("content-flip", variant(lambda e: e.__setitem__(p, ("f", bytes(b).decode("latin-1"))))))
+        p2 = rng.choice(files)
+        res.append(("remove-file", variant(lambda e: e.pop(p2))))
+    loc = rng.choice([()] + [p for p, v in ents.items() if v[0] == "d"])
+    nm = fresh_name(rng, _names_in(ents, loc))
+    res.append(("add-file", variant(lambda e: e.__setitem__(loc + (nm,), ("f", "new")))))
+    if links:
+        p = rng.choice(links)
+        others = [q for q in list(ents) if q != p]
+        if others:
+            q = rng.choice(others)
+            res.append(("retarget", variant(lambda e: e.__setitem__(p, ("l", _rel(p[:-1], q))))))
+        res.append(("link->self-loop", variant(lambda e: e.__setitem__(p, ("l", "./" + p[-1])))))
+        # shorten a chain by one hop (same final target, different link text)
+        for p in links:
+            hit = [q for q in links if q != p and ents[p][1] == _rel(p[:-1], q)
+                   and not ents[q][1].startswith(("/", "@W@"))]
+            if hit:
+                q = hit[0]
+                new = _rel(p[:-1], q[:-1]) + "/" + ents[q][1]
+                res.append(("chain-shortened", variant(lambda e: e.__setitem__(p, ("l", new)))))
+                break
+    return [(k, c) for k, c in res if c is not None]
+
+
+def spec_of_world(rng, cw, name, alg):
+    ents = [[list(p), v[0], (v[1].replace("@NAME@", name) if v[0] == "l" else v[1])] for p, v in cw["ents"].items()]
+    rng.shuffle(ents)
+    return {"name": name, "alg": alg, "entries": ents, "relcall": rng.random() < 0.2,
+            "outside_links": [[k, v.replace("@NAME@", name)] for k, v in sorted(cw["out"].items())],
+            "mtimes": [rng.randrange(0, 2_000_000_000) for _ in range(len(ents) + 1)], "styles": []}
+
+
+def judge_chain(A, loop_a, B, loop_b, ra, rb, alg):
+    """Oracle for chain worlds on their FINAL trees; a loop must be refused (RuntimeError, or the
+    outside ValueError when the directory also has a link ending outside)."""
+    for T, lp, r in ((A, loop_a, ra), (B, loop_b, rb)):
+        if r[0] == "timeout":
+            return None
+        if lp and r[0] not in ({"loop", "outside"} if has_outside_real(T) else {"loop"}):
+            return ("loop-not-rejected", f"a link of the directory loops but the call gave {r[0]}: {str(r[1])[:100]}")
+    if loop_a or loop_b:
+        return None
+    return judge_pair(A, B, ra, rb, alg)
+
+
+def has_outside_real(T) -> bool:
+    return any(n[0] == "l" and n[1][0] == "out" and n[1][1] != "loop" for _, n in walk(T))
 
 
 def w_group(specs):
@@ -1034,13 +1350,24 @@ def crosscheck(cases, results, tag, max_cases):
     return xc
 
 
+def crosscheck_c(cases, results, tag, max_cases):
+    xc: Dict[str, Any] = {}
+    for attempt in range(3):
+        xc = vlib.coq_crosscheck("c19c", cases, results, tag, max_cases=max_cases)
+        if xc["ok"] or "inconsistent assumptions" not in xc.get("log", ""):
+            break
+        vlib.ensure_built(need=["Properties/C19.vo"])
+    return xc
+
+
 def run_model_spread(cases, seed):
     """vlib.run_model hands contiguous slices to the runner processes; the few expensive cases
     (64 KiB files) are generated next to each other, so run in a fixed shuffled order."""
     import random
     perm = list(range(len(cases)))
     random.Random(seed).shuffle(perm)
-    res = vlib.run_model("c19", [cases[i] for i in perm])
+    entry = "c19c" if cases and cases[0][0] == "ctree" else "c19"
+    res = vlib.run_model(entry, [cases[i] for i in perm])
     out: List[Any] = [None] * len(cases)
     for i, r in zip(perm, res):
         out[i] = r
@@ -1066,8 +1393,8 @@ def run(ctx: vlib.Ctx):
     cov = ctx.coverage
     cov["trusted_base"] = vlib.TRUSTED_COMMON + [
         "modelled, not verified: the file system, pathlib (rglob listing each entry exactly once and not descending into "
-        "symlinked directories, is_file/is_symlink, relative_to), os.readlink, Path.resolve as lexical normalisation "
-        "(valid when no component of a link text is itself a symlink — generator precondition chain_free), Python dict "
+        "symlinked directories, is_file/is_symlink, relative_to), os.readlink, os.lstat, Path.resolve = posixpath.realpath "
+        "(non-strict) + stat raising RuntimeError on a loop — transcribed in DirHashChain.v, lexical special case in DirHash.v; Python dict "
         "equality as order-independent comparison of nested tables",
         "modelled, not verified: hashlib objects as a streaming hash (update(x);update(y) = update(x+y)); SHA-256/512 "
         "injectivity on the compared payloads is a premise of the theorems; buffered file objects returning the file bytes",
@@ -1227,6 +1554,60 @@ def run(ctx: vlib.Ctx):
             disagreements.append({"kind": "same-process", "step": k, "what": st["what"], "spec": st["spec"],
                                   "model": str(want)[:600], "impl": str(got)[:600]})
     _phase(ctx, "same-process sequences")
+    # ---------------- 2c. symlink chains: links to links, through linked directories, loops, out and back
+    cgroups = []      # (specs, finals [(tree, loop)], labels, features)
+    for _ in range(ctx.budget(70, 700)):
+        T, pool = gen_tree(rng, outside=False)
+        cw, feats = gen_chain_world(rng, T)
+        alg = rng.choice(ALGS)
+        names = rng.sample(BASENAMES, 2)
+        worlds = [("base", cw, names[0]), ("same", cw, names[1])]
+        worlds += [(k, c, rng.choice(BASENAMES)) for k, c in chain_edits(rng, cw)]
+        specs = [spec_of_world(rng, c, nm, alg) for _, c, nm in worlds]
+        cgroups.append((specs, [final_of_spec(sp) for sp in specs], [k for k, _, _ in worlds], feats))
+    cres = vlib.pmap(w_group, [g[0] for g in cgroups], chunksize=4)
+    for g, rs in zip(cgroups, cres):
+        for i, r in enumerate(rs):
+            if r[0] == "timeout":
+                timeouts += 1
+                rs[i] = impl_tree(dict(g[0][i], tl=4 * TL))
+    evals += sum(len(rs) for rs in cres)
+    chain_pairs = set()
+    for (specs, finals, labels, feats), rs in zip(cgroups, cres):
+        for i in range(1, len(specs)):
+            (A, la), (B, lb) = finals[0], finals[i]
+            j = judge_chain(A, la, B, lb, rs[0], rs[i], specs[0]["alg"])
+            if not (la or lb or has_outside(A) or has_outside(B)):
+                chain_pairs.add((vlib.signature(tree_json(A)), vlib.signature(tree_json(B)), labels[i] == "same"))
+            if j:
+                failures.append({"kind": "chainpair", "judge": j[0], "why": j[1], "edit": labels[i],
+                                 "sa": specs[0], "sb": specs[i], "feats": feats})
+    cm_cases, cm_where = [], []
+    for gi, ((specs, finals, labels, feats), rs) in enumerate(zip(cgroups, cres)):
+        for i, (sp, r) in enumerate(zip(specs, rs)):
+            if wire_safe(sp) and r[0] != "timeout":
+                cm_cases.append(model_case_c(sp, r[2]))
+                cm_where.append((gi, i))
+    cm = run_model_spread(cm_cases, ctx.seed + 2) if cm_cases else []
+    for (gi, i), mr in zip(cm_where, cm):
+        specs, finals, labels, feats = cgroups[gi]
+        r, (A, lp) = cres[gi][i], finals[i]
+        if (mr[0] == "T") != lp or mr[1] == "T" or skel_tree(mr[2], None) != abs_skel(A):
+            gen_bug = gen_bug or {"spec": specs[i], "tree": tree_json(A), "model_flags": mr[:2], "model_skeleton": mr[2]}
+            continue
+        if mr[3] == []:
+            ok = r[0] in (({"loop"} if lp else set()) | ({"outside"} if has_outside_real(A) else set()))
+            want, got = "raises (loop -> RuntimeError, outside -> ValueError)", r[0]
+        else:
+            want = model_dict(mr[3][0], mr[2], specs[i]["alg"])
+            got = r[1] if r[0] == "ok" else r[0]
+            ok = want == got
+        if not ok and len(disagreements) < 50:
+            disagreements.append({"kind": "chain", "edit": labels[i], "spec": specs[i],
+                                  "model": str(want)[:600], "impl": str(got)[:600]})
+    smallc = [k for k, c in enumerate(cm_cases) if len(vlib.sx_dumps(c)) < 1500]
+    xc3 = crosscheck_c([cm_cases[k] for k in smallc], [cm[k] for k in smallc], "c19chain", ctx.budget(25, 80))
+    _phase(ctx, "symlink chains")
     # ---------------- 3. the hashing functions and the read loop
     hcases = []
     for size in sizes:
@@ -1301,6 +1682,12 @@ def run(ctx: vlib.Ctx):
              "entries": [[["f"], "f", "x"], [["l1"], "l", "f"], [["l2"], "l", "l1"]]}
     cr = impl_tree(chain)
     if cr[0] == "ok":
+        ctx.notes.append("observation: with chains the code identifies directories by the FINAL targets of their links "
+                         "(theorem C19_chain_identify, Example C19_chain_observation): shortening a chain by one hop leaves the "
+                         "hashsum tree unchanged; a loop is refused with RuntimeError('Symlink loop ...') from Path.resolve, "
+                         "EXCEPT (CPython realpath+abspath) when the text after the looping link contains '..' that lexically "
+                         "removes it: then nothing is raised and a lexically collapsed path is recorded (a -> a/../f gives "
+                         "'symlink:f'); modelled in DirHashChain.v (finish/kwalk), Example C19_chain_cases")
         ctx.notes.append(f"observation (outside the model, not judged): a link to a link is recorded with the final "
                          f"target: l2 -> l1 -> f gives {cr[1].get('l2')!r}")
 
@@ -1318,6 +1705,19 @@ def run(ctx: vlib.Ctx):
             rep = {"kind": "hash", "mode": c["mode"], "alg": c["alg"], "data": c["data"].decode("latin-1"),
                    **{k: c[k] for k in ("cuts", "skip", "n") if k in c}}
             ctx.violation(f"hashing ({c['mode']}, {c['alg']}, {len(c['data'])} bytes): {f['why']}", rep, sig_obj=sig)
+            continue
+        if f["kind"] == "chainpair":
+            sig = {"kind": "chain", "judge": f["judge"]}
+            if vlib.signature(sig) in seen:
+                continue
+            seen.add(vlib.signature(sig))
+            ra, rb = impl_tree(f["sa"]), impl_tree(f["sb"])
+            ctx.violation(
+                f"dir_hashsums on a directory with symlink chains ({f['edit']}; features {f['feats']}): {f['judge']}: {f['why']}",
+                {"kind": "chainpair", "failure": f["judge"], "edit": f["edit"], "a": f["sa"], "b": f["sb"],
+                 "final_a": tree_json(final_of_spec(f["sa"])[0]), "final_b": tree_json(final_of_spec(f["sb"])[0]),
+                 "impl_a": [ra[0], ra[1]], "impl_b": [rb[0], rb[1]]},
+                sig_obj=sig)
             continue
         if f["kind"] == "inplace":
             st = f["job"]["steps"][f["step"]]
@@ -1365,7 +1765,7 @@ def run(ctx: vlib.Ctx):
                       for g in groups for t in g[1][2:]}
     nodes = [n for t in all_trees for _, n in walk(t)]
     cov["evaluations"] = evals
-    cov["distinct_nontrivial"] = len(distinct_pairs) + inside
+    cov["distinct_nontrivial"] = len(distinct_pairs) + inside + len(chain_pairs)
     cov["rule"] = ("generated trees (<= 4 levels, files/links/dirs, 3 contents per tree so that equal files are frequent) each "
                    "materialised twice (spelling, order, mtimes, base name differ) and once per applicable single-edit kind, plus "
                    "one-file trees for every size around the block boundaries; distinct_nontrivial = distinct (tree, single edit "
@@ -1387,16 +1787,23 @@ def run(ctx: vlib.Ctx):
         "depth": _hist(max([len(p) for p, _ in walk(g[1][0])] or [0]) for g in groups),
         "trees_with_outside_link": sum(1 for t in all_trees if has_outside(t)),
         "relative_dir_argument": sum(1 for g in groups for s in g[0] if s["relcall"]),
+        "chain_groups": len(cgroups), "chain_materialisations": sum(len(g[0]) for g in cgroups),
+        "chain_features": _hist(f for g in cgroups for f in g[3]),
+        "chain_edits": _hist(lab for g in cgroups for lab in g[2][1:]),
+        "chain_outcomes": _hist(r[0] for rs in cres for r in rs),
+        "chain_trees_with_loop": sum(1 for g in cgroups for _, lp in g[1] if lp),
+        "chain_distinct_judged_pairs": len(chain_pairs),
         "same_process_jobs": len(jobs), "same_process_steps": job_steps,
         "same_process_ops": _hist(st["op"] + (":rel" if st.get("rel") else "") for j in jobs for st in j["steps"]),
         "hash_cases": _hist(c["mode"] for c in hcases), "hash_sizes": sizes,
         "model_tree_cases": len(mcases) + len(dm) + len(jm_cases), "model_hash_cases": len(mh_cases),
         "timeouts_rerun_alone": timeouts,
     }
-    cov["coq_crosscheck"] = {"tree": xc, "hash": xc2}
+    cov["coq_crosscheck"] = {"tree": xc, "hash": xc2, "chain": xc3}
     cov["disagreements"] = len(disagreements)
     ctx.assumptions += [
-        "no component of a symlink text is itself a symlink (Path.resolve then follows it; such chains are outside the model)",
+        "chain-free trees are compared with the lexical model (DirHash.v), trees with symlink chains / loops / links through "
+        "linked directories with the realpath model (DirHashChain.v); chains longer than the kernel limit of 40 hops are not generated",
         "entry names are valid file names (no '/', not '.', '..'), code points < 256; only regular files, directories, symlinks",
         "SHA-256/SHA-512 do not collide on the compared payloads; hashlib objects are streaming hashes",
         "the directory is not modified while it is hashed",
@@ -1406,9 +1813,9 @@ def run(ctx: vlib.Ctx):
         ctx.violation("harness: generated tree and the model's normalised skeleton differ (generator or rel_symlink model wrong)",
                       {"kind": "generator", "correspondence": "harness/props/c19.py spell() vs coq/Util/DirHash.v normalise", **gen_bug},
                       found_input=False)
-    if not xc["ok"] or not xc2["ok"]:
+    if not xc["ok"] or not xc2["ok"] or not xc3["ok"]:
         ctx.violation("extracted runner and in-Coq evaluation of the model disagree (stale or wrong extraction)",
-                      {"kind": "crosscheck", "tree": xc, "hash": xc2}, found_input=False)
+                      {"kind": "crosscheck", "tree": xc, "hash": xc2, "chain": xc3}, found_input=False)
     if not proof["ok"]:
         ctx.violation("proof obligations of Properties/C19.v do not check: " + "; ".join(proof["problems"])[:500],
                       {"kind": "proof", "theorem_file": "coq/Properties/C19.v", "problems": proof["problems"]},
@@ -1443,6 +1850,15 @@ def replay(rep) -> int:
         print("a:", json.dumps(tree_json(A)), "->", ra[0], ra[1])
         print("b:", json.dumps(tree_json(B)), "->", rb[0], rb[1])
         j = judge_pair(A, B, ra, rb, sa["alg"])
+        print(f"still failing: {j[0]}: {j[1]}" if j else "no longer failing")
+        return 1 if j else 0
+    if kind == "chainpair":
+        sa, sb = rep["a"], rep["b"]
+        (A, la), (B, lb) = final_of_spec(sa), final_of_spec(sb)
+        ra, rb = impl_tree(sa), impl_tree(sb)
+        print("a: final", json.dumps(tree_json(A))[:300], "loop" if la else "", "->", ra[0], str(ra[1])[:200])
+        print("b: final", json.dumps(tree_json(B))[:300], "loop" if lb else "", "->", rb[0], str(rb[1])[:200])
+        j = judge_chain(A, la, B, lb, ra, rb, sa["alg"])
         print(f"still failing: {j[0]}: {j[1]}" if j else "no longer failing")
         return 1 if j else 0
     if kind == "inplace":
